@@ -12,6 +12,7 @@ import (
 	"math"
 	"math/rand"
 	"strconv"
+	"strings"
 
 	"github.com/flowmatters/openwater-core/data"
 	"github.com/flowmatters/openwater-core/sim"
@@ -216,10 +217,17 @@ func pgen(t []string) *result {
 	case "Lag":
 		shared["timeLag"] = float64(rng.Intn(4))
 	}
+	mode := drawMode{kind: "std"}
+	if len(t) > 3 { // PGEN <Model> nSets seed d0,d1,..: table sizes per parameter set
+		for _, x := range strings.Split(t[3], ",") {
+			v, _ := strconv.Atoi(x)
+			mode.dims = append(mode.dims, v)
+		}
+	}
 	sets := make([]paramSet, nSets)
 	maxd := map[string]int{}
 	for c := range sets {
-		sets[c] = genParamSet(name, desc, rng, shared, drawMode{kind: "std"}, c)
+		sets[c] = genParamSet(name, desc, rng, shared, mode, c)
 		for d, v := range sets[c].dims {
 			if v > maxd[d] {
 				maxd[d] = v
